@@ -148,6 +148,24 @@ func (in *Interp) toNative(fr *frame, v Value) (interface{}, bool) {
 			}
 			return in.toNative(fr, Iface{T: rv.T, V: rv.get()})
 		}
+		// fmt: a nil pointer whose Error/String method has a value receiver prints as <nil> (fmt recovers the
+		// nil dereference); a nil pointer with pointer-receiver methods has the method called
+		if _, isPtr := x.T.Underlying().(*types.Pointer); isPtr {
+			if p, ok := x.V.(*Value); ok && p == nil {
+				ms := in.prog.MethodSets.MethodSet(x.T)
+				for i := 0; i < ms.Len(); i++ {
+					f, isF := ms.At(i).Obj().(*types.Func)
+					if !isF || (f.Name() != "Error" && f.Name() != "String") {
+						continue
+					}
+					if recv := f.Type().(*types.Signature).Recv(); recv != nil {
+						if _, ptrRecv := recv.Type().(*types.Pointer); !ptrRecv {
+							return rawString("<nil>"), true
+						}
+					}
+				}
+			}
+		}
 		if types.Implements(x.T, errorIface) {
 			s, ok := in.errorText(fr, x).Concrete()
 			if !ok {
